@@ -9,7 +9,8 @@ from . import _reg
 ID = "C04"
 P = "Webauthn.Props.C04."
 THEOREMS = [P + n for n in ("enforced", "anchors_require_valid_chain", "isolation", "unchecked_when_no_anchor",
-                            "rootsFor_text", "no_builtin_roots")] + ["Webauthn.validateChainReg_ok"]
+                            "rootsFor_text", "no_builtin_roots", "signer_is_validated_leaf", "android_key_root_is_anchor")] + \
+           ["Webauthn.validateChainReg_ok"]
 LEAN_TARGETS = ["Props.C04"]
 SPEC_FILES = ["Spec/Core.lean", "Props/C03.lean"]
 ASSUMPTIONS = ["what makes a chain valid (signatures, CA bit, validity period) is OpenSSL's verdict: an oracle",
